@@ -95,29 +95,35 @@ def check_parent(ctx, rep, rule='T-parent'):
                     if base[0] == 'ext' and strip_upd(base[1])[0] == 'param' and strip_upd(base[1])[2] == 'contours' and len(idx) == 1:
                         where = classify_id(idx[0][1])
                 pushes.append((where, classify_id(e['args'][1])))
-        # oracle
-        if not at.get('has_lower', False):
-            exp, case = 'None', 'no-lower-edge'
-        elif not at.get('lower_out_in', False):
-            exp, case = 'None', 'lower-InOut'
-        elif at.get('lower_is_hole') is False:
-            exp, case = 'lower', 'lower-OutIn-exterior'
-        elif at.get('lower_is_hole') is True:
-            exp, case = 'lower.hole_of', 'lower-OutIn-hole'
-        else:
-            exp, case = '?', 'lower-OutIn-untested'
-        exp_push = [] if exp == 'None' else [(exp, 'self')]
-        ok = hole_of == exp and pushes == exp_push
-        if case in seen and ok:
-            continue
-        seen.add(case)
-        n += 1
-        rep.ob(rule, case, ok,
-               'case %s: the new contour must get hole_of=%s and be registered exactly there (pushes %s); found hole_of=%s, pushes %s'
-               % (case, exp, exp_push, hole_of, pushes), loc=b.loc(b.j['line_lo']), reason='table-row',
-               expected={'hole_of': exp, 'pushes': exp_push}, found={'hole_of': hole_of, 'pushes': pushes})
-        if not ok:
-            rep.violations[-1]['path'] = ['%s:%s' % (b.file, l) for l in p.branch_lines()]
+        # oracle, for every value of the atoms this path did not test (an untested atom the outcome depends on is a missing case)
+        import itertools
+        free = [a for a in ('has_lower', 'lower_out_in', 'lower_is_hole') if a not in at]
+        for combo in itertools.product((False, True), repeat=len(free)):
+            at2 = dict(at)
+            at2.update(dict(zip(free, combo)))
+            if not at2['has_lower']:
+                exp, case = 'None', 'no-lower-edge'
+            elif not at2['lower_out_in']:
+                exp, case = 'None', 'lower-InOut'
+            elif at2['lower_is_hole'] is False:
+                exp, case = 'lower', 'lower-OutIn-exterior'
+            else:
+                exp, case = 'lower.hole_of', 'lower-OutIn-hole'
+            if free:
+                case += ':untested(%s)' % ','.join(free)
+            exp_push = [] if exp == 'None' else [(exp, 'self')]
+            ok = hole_of == exp and pushes == exp_push
+            if case in seen and ok:
+                continue
+            seen.add(case)
+            n += 1
+            rep.ob(rule, case, ok,
+                   'case %s: the new contour must get hole_of=%s and be registered exactly there (pushes %s); found hole_of=%s, pushes %s'
+                   % (case, exp, exp_push, hole_of, pushes), loc=b.loc(b.j['line_lo']), reason='table-row',
+                   expected={'hole_of': exp, 'pushes': exp_push}, found={'hole_of': hole_of, 'pushes': pushes})
+            if not ok:
+                rep.violations[-1]['path'] = ['%s:%s' % (b.file, l) for l in p.branch_lines()]
+                break
     rep.rows_compared += n
     rep.floor(rule, 'parent cases', n, 4)
     # is_exterior reads hole_of
